@@ -153,7 +153,7 @@ class World:
             n.set('doing', set())
             n.set('do', set())
             n.set('status', State.initial)
-            for k in ('runid', 'event', 'period', 'fired'):
+            for k in ('runid', 'event', 'period', 'fired', 'running'):
                 if k in n.attrib:
                     del n.attrib[k]
         farm.clear()
